@@ -1096,7 +1096,12 @@ def run(ctx):
                 "[-1e9, 1e-3], [-1e-3, 1e9], ...) with parents on the bounds; results of clip / of the swarm reset are judged with the "
                 "property's slack 1e-12 exactly (no ulp term); NSGA-II runs seeded through CustomGenerator with whole-number designs "
                 "(6 representations) in boxes with non-integer bounds; one re-roll stress run per algorithm (half of the evaluations fail); "
-                "RandomGenerator boxes that sit on no decimal grid with precisions 0.5 / 0.05 / 0.4 / 5")
+                "RandomGenerator boxes that sit on no decimal grid with precisions 0.5 / 0.05 / 0.4 / 5. "
+                "Red-team round 6: continued runs - per algorithm 4 (thorough 10) histories in which run() is called two or three times on "
+                "the SAME algorithm object (N in {6,8,12}, G in {3,4,6}, 2-4 parameters); the two optima of the objective lie near one end of "
+                "the first box and before every later run the box is narrowed / moved in place (three ways of writing it) so that the region "
+                "the earlier run converged to is outside it; every vector the objective sees in a later run is judged on the box declared "
+                "when that run starts (direct oracle only)")
     rhist = {"runs": {}, "evaluated_vectors": 0, "failed_evaluations": 0, "coordinates_on_a_bound": 0, "generation_steps": 0,
              "breed_passes": 0, "runs_aborted_by_complex_power": 0, "runs_skipped_nan": 0, "swarm_reordered_steps": 0, "rerolled_individuals": 0,
              "clipped_in_runs": 0, "children_dropped_by_duplicate_filter": 0}
@@ -1178,6 +1183,50 @@ HISTORIES_MORE = [("between_runs", "widen", "rebind", True), ("before_first_run"
                   ("between_runs", "shift", "dict", True), ("between_runs", "tighten", "item", False)]
 
 
+CONTINUED_INTERVALS = [(-5.0, 5.0), (-5.0, 5.0), (0.0, 1.0), (-7.5, -2.25), (10, 20), (-100.0, 100.0), (2.0, 2.5), (-1.0, 1.0), (-2.0, 3.0)]
+
+
+def continued_plan(rng, d, later_runs):
+    """A history of run() calls on ONE algorithm object (red-team round 6).  First box: d intervals from CONTINUED_INTERVALS.  The two
+    optima of the objective (LogProblem, state['centres']) lie inside the first box near ONE end of every interval, so the first run
+    converges there.  Every later box leaves that region out: a part of the previous interval on the far side (narrowed), or an interval
+    moved away from it (overlapping / disjoint); the box after that leaves out the near end of the second box as well.  With
+    probability 1/4 one coordinate (never all) keeps its interval.  JSON-able: it is stored with a failing input and replayed."""
+    box, a, b, sides = [], [], [], []
+    for _ in range(d):
+        lb, ub = rng.choice(CONTINUED_INTERVALS)
+        w = ub - lb
+        side = rng.choice([0, 1])                  # 0: the optima sit near lb, the box moves up; 1: near ub, the box moves down
+        u1, u2 = 0.05 + 0.35 * rng.random(), 0.05 + 0.35 * rng.random()
+        a.append(lb + u1 * w if side == 0 else ub - u1 * w)
+        b.append(lb + u2 * w if side == 0 else ub - u2 * w)
+        box.append(((lb, ub), None))
+        sides.append(side)
+    keep = rng.randrange(d) if d >= 2 and rng.random() < 0.25 else None
+    boxes, modes = [], []
+    cur = [tuple(bb) for bb, _ in box]
+    for r in range(later_runs):
+        nxt = []
+        for i, (lb, ub) in enumerate(cur):
+            w = ub - lb
+            how = rng.choice(["narrow", "narrow", "narrow_both", "overlap", "move"])
+            if i == keep:
+                nb = (lb, ub)
+            elif how == "narrow":
+                nb = (lb + 0.6 * w, ub) if sides[i] == 0 else (lb, ub - 0.6 * w)
+            elif how == "narrow_both":
+                nb = (lb + 0.6 * w, ub - 0.1 * w) if sides[i] == 0 else (lb + 0.1 * w, ub - 0.6 * w)
+            elif how == "overlap":
+                nb = (lb + 0.55 * w, ub + 0.5 * w) if sides[i] == 0 else (lb - 0.5 * w, ub - 0.55 * w)
+            else:
+                nb = (ub + 0.5 * w, ub + 1.5 * w) if sides[i] == 0 else (lb - 1.5 * w, lb - 0.5 * w)
+            nxt.append([float(nb[0]), float(nb[1])] if i != keep else [lb, ub])
+        boxes.append(nxt)
+        modes.append(rng.choice(CHANGE_MODES))
+        cur = [tuple(x) for x in nxt]
+    return box, {"when": "continued", "centres": [a, b], "boxes": boxes, "modes": modes}
+
+
 def index_of(objs, o):
     for i, x in enumerate(objs):
         if x is o:
@@ -1237,6 +1286,9 @@ def run_level(ctx, rhist, specs=None):
                 raise RuntimeError("scripted failure")
             state["streak"][k] = 0
             xs = [float(v) for v in x]
+            c = state.get("centres")
+            if c:          # continued-run histories: the two optima sit where the plan puts them (inside the FIRST box of the history)
+                return [sum((v - a) ** 2 for v, a in zip(xs, c[0])), sum((v - b) ** 2 for v, b in zip(xs, c[1]))]
             return [sum(v * v for v in xs), sum((v - 1.0) ** 2 for v in xs)]
 
     # ---- class-level recording wrappers (restored in `finally`)
@@ -1429,6 +1481,9 @@ def run_level(ctx, rhist, specs=None):
                     if name == "EpsMOEA":
                         arch0 = [index_of(pop_objs, a) for a in arch]
                         arch_objs = list(arch)
+                        if any(i is None for i in arch0):       # red-team round 6: state of an earlier run() of the same object
+                            raise RunAbort("the archive at the first generate() of this run holds %d design(s) that are not members of "
+                                           "this run's initial population" % sum(1 for i in arch0 if i is None))
                     first_gen = False
                 if len(parents) != len(pop_objs) or any(a is not b for a, b in zip(parents, pop_objs)):
                     raise RunAbort("population at generate() is not the population the previous step left")
@@ -1583,6 +1638,27 @@ def run_level(ctx, rhist, specs=None):
         alg = build()
         if plan is None:
             do_run(name, coq_algo, problem, alg, bounds, precs, N, G, fail_p, seed, dict(base, step="run"), correspond)
+            return
+        if plan["when"] == "continued":
+            # red-team round 6: run() is called again (and again) on the SAME algorithm object; before every later call the user
+            # narrows / moves the declared box so that the region the earlier run converged to is no longer admissible.  Whatever
+            # the object keeps from an earlier run (archive, leaders, swarm, generator, operators) is stale now; every vector the
+            # objective sees during a later run is judged on the box declared when that run was started.
+            state["centres"] = plan["centres"]
+            try:
+                do_run(name, coq_algo, problem, alg, bounds, precs, N, G, fail_p, seed,
+                       dict(base, step="run 1 of the algorithm object (first box of the history)"), correspond)
+                for k, (nb, mode) in enumerate(zip(plan["boxes"], plan["modes"])):
+                    change_bounds(problem.parameters, [tuple(b) for b in nb], mode)
+                    now = [tuple(p["bounds"]) for p in problem.parameters]
+                    rhist["box_changes_in_place"] = rhist.get("box_changes_in_place", 0) + 1
+                    rhist["runs_continued_on_a_moved_box"] = rhist.get("runs_continued_on_a_moved_box", 0) + 1
+                    do_run(name, coq_algo, problem, alg, now, precs, N, G, fail_p, seed + 7919 * (k + 1),
+                           dict(base, step="run %d of the SAME algorithm object, after the declared box was changed in place (%s) to %r: the "
+                                           "optimum of the earlier run(s) is outside it" % (k + 2, mode, [list(b) for b in now]),
+                                declared_box_at_this_run=[list(b) for b in now]), correspond)
+            finally:
+                state["centres"] = None
             return
         new_bounds = [tuple(b) for b in plan["new_box"]]
         k = 0
@@ -1744,6 +1820,17 @@ def run_level(ctx, rhist, specs=None):
             plan = {"when": when, "change": how, "mode": mode, "new_box": new_box, "only": only, "second_algorithm": second}
             one_run(name, box, rng.choice([2, 3, 5]), rng.choice([2, 3]), rng.choice([0.0, 0.0, 0.15]), rng.choice([None, 0.5, 1.0]), plan=plan,
                     names=param_names(rng, len(box), rng.choice(NAME_SCHEMES)))
+    # ---- red-team round 6: continued runs (direct oracle only): run, move the box away from the optimum found, run again on the
+    # same object, move it once more, run a third time
+    import time
+    t_cont = time.process_time()
+    for name in ALGOS:
+        for rep in range(ctx.pick(4, 10)):
+            box, plan = continued_plan(rng, rng.choice([2, 3, 3, 4]), 2 if rep % 2 == 0 else 1)
+            rhist["continued_run_histories"] = rhist.get("continued_run_histories", 0) + 1
+            one_run(name, box, rng.choice([6, 8, 12]), rng.choice([3, 4, 6]), rng.choice([0.0, 0.0, 0.15]), rng.choice([None, None, None, 0.5]),
+                    pc_opt=rng.choice([None, None, 0.5]), plan=plan, names=param_names(rng, len(box), rng.choice(NAME_SCHEMES)), correspond=False)
+    rhist["continued_run_histories_cpu_s"] = round(time.process_time() - t_cont, 2)
     ctx.coq_compare("c08_run", HEADER, "run_case", "run_obs", "c08_run_run", "run_obs_eqb", cases, expected, meta,
                     shard=ctx.pick(8, 16))
 
